@@ -5,7 +5,7 @@
     behind"); the theorems below say how much of the stream each sampler consumes ([consumes us r n]: us = pre ++ r
     with n = length pre), which is what the check compares with the state of the real std::mt19937 after the call. *)
 From Coq Require Import ZArith List Reals.
-From LP Require Import Num NumR C18_Model C18_Proofs C18_Proofs_R C18_Proofs_St C18_Proofs_StR C18_Proofs_Hist C18_Proofs_HistR C18_Proofs_StR2 C18_Proofs_Supp C18_Proofs_Wall.
+From LP Require Import Num NumR C18_Model C18_Proofs C18_Proofs_R C18_Proofs_St C18_Proofs_StR C18_Proofs_Hist C18_Proofs_HistR C18_Proofs_StR2 C18_Proofs_Supp C18_Proofs_Wall C18_Proofs_Sel C18_Proofs_SelR.
 Import ListNotations.
 
 (** ** consumption, for an arbitrary number type (control flow only; valid verbatim for doubles) *)
@@ -149,16 +149,14 @@ Theorem C18_acceptance_outside_domain_is_zero PDF lo hi x y : y < lo \/ hi < y -
 Proof. exact (accept1_outside_any_density PDF lo hi x y). Qed.
 Print Assumptions C18_acceptance_outside_domain_is_zero.
 
-Theorem C18_metropolis_step_rejects_outside PDF lo hi x y u : y < lo \/ hi < y -> 0 <= u ->
-  nltb ROps (unif ROps u (n0 ROps) (n1 ROps)) (accept1 ROps PDF (Some (lo, hi)) x y) = false.
-Proof. exact (metro_step_keeps_outside_candidate_out PDF lo hi x y u). Qed.
+(* 1D and 2D in one theorem (one Print Assumptions: each costs ~1 s of the quick tier) *)
+Theorem C18_metropolis_step_rejects_outside :
+  (forall PDF lo hi x y u, y < lo \/ hi < y -> 0 <= u ->
+     nltb ROps (unif ROps u (n0 ROps) (n1 ROps)) (accept1 ROps PDF (Some (lo, hi)) x y) = false) /\
+  (forall PDF x0 x1 y0 y1 x c u, (fst c < x0 \/ x1 < fst c \/ snd c < y0 \/ y1 < snd c) -> 0 <= u ->
+     nltb ROps (unif ROps u (n0 ROps) (n1 ROps)) (accept2 ROps PDF (Some (x0, x1, y0, y1)) x c) = false).
+Proof. exact (conj metro_step_keeps_outside_candidate_out metro2_step_keeps_outside_candidate_out). Qed.
 Print Assumptions C18_metropolis_step_rejects_outside.
-
-Theorem C18_metropolis_2d_step_rejects_outside PDF x0 x1 y0 y1 x c u :
-  (fst c < x0 \/ x1 < fst c \/ snd c < y0 \/ y1 < snd c) -> 0 <= u ->
-  nltb ROps (unif ROps u (n0 ROps) (n1 ROps)) (accept2 ROps PDF (Some (x0, x1, y0, y1)) x c) = false.
-Proof. exact (metro2_step_keeps_outside_candidate_out PDF x0 x1 y0 y1 x c u). Qed.
-Print Assumptions C18_metropolis_2d_step_rejects_outside.
 
 (** ** detailed balance of the acceptance probability min(1, pi(y)/pi(x)) the code computes *)
 Theorem C18_acceptance_detailed_balance PDF x y : 0 < PDF x -> 0 < PDF y ->
@@ -389,12 +387,7 @@ Print Assumptions C18_history_metropolis_count.
 Print Assumptions C18_history_metropolis_2d_count.
 Print Assumptions C18_poisson_vector_is_history.
 
-(** non-vacuity: three different samplers interleaved on one stream of four uniforms *)
-Theorem C18_history_example :
-  run_calls ROps [CUniform (-1) 3; CRej (fun x => 2 * x) 0 1 2; CMetro (fun x => x) 1 0 1 0 [0; 1]] [/2; /2; /4; /2]
-  = Ok ([AReal 1; AReal (/2); AReals []], []).
-Proof. exact history_ex. Qed.
-Print Assumptions C18_history_example.
+(** non-vacuity: three different samplers interleaved on one stream of four uniforms: first conjunct of C18_examples (end of the file) *)
 
 (** ** "returns values inside the requested domain" for Inverse_Transform_Sampling: Find_Root keeps every iterate inside
     the bracket (the clamp of Ridder's point), so the value returned lies between xMin and xMax -- for EVERY cdf
@@ -445,12 +438,7 @@ Theorem C18_metropolis_2d_stays_in_support PDF s1 s2 sample thin burn domain u1 
 Proof. exact (metropolis_2d_stays_in_support PDF s1 s2 sample thin burn domain u1 u2 us l r p0). Qed.
 Print Assumptions C18_metropolis_2d_stays_in_support.
 
-(* the hypotheses are satisfiable: the triangular density 2x on [0,1] (zero outside), domain [-1,2], start deviate 1/2 *)
-Theorem C18_stays_in_support_example :
-  let PDF := fun x : R => if Rle_dec 0 x then (if Rle_dec x 1 then 2 * x else 0) else 0 in
-  (forall y, 0 <= PDF y) /\ metro_start 1 [-1; 2] (/2) (/2) /\ 0 < PDF (/2).
-Proof. exact stays_in_support_ex. Qed.
-Print Assumptions C18_stays_in_support_example.
+(* the hypotheses are satisfiable: the triangular density 2x on [0,1] (zero outside), domain [-1,2], start deviate 1/2: second conjunct of C18_examples *)
 
 (** the step behind it: a candidate of density zero has acceptance probability exactly 0 from every current point *)
 Theorem C18_acceptance_zero_density_candidate PDF dom x cand : PDF cand = 0 -> accept1 ROps PDF dom x cand = 0.
@@ -497,18 +485,112 @@ Proof. exact (accept2_inside_any_ops Ops PDF x0 x1 y0 y1 x cand). Qed.
 Print Assumptions C18_domain_is_closed_2d.
 
 (** over the reals: every eps > 0, however small, beyond either wall; every point of [lo, hi], the walls included *)
-Theorem C18_no_tolerance_band PDF lo hi x eps : 0 < eps ->
-  accept1 ROps PDF (Some (lo, hi)) x (hi + eps) = 0 /\ accept1 ROps PDF (Some (lo, hi)) x (lo - eps) = 0.
-Proof. exact (accept1_no_tolerance_band PDF lo hi x eps). Qed.
+Theorem C18_no_tolerance_band PDF lo hi x :
+  (forall eps, 0 < eps ->
+     accept1 ROps PDF (Some (lo, hi)) x (hi + eps) = 0 /\ accept1 ROps PDF (Some (lo, hi)) x (lo - eps) = 0) /\
+  (forall y, lo <= y <= hi -> accept1 ROps PDF (Some (lo, hi)) x y = accept1 ROps PDF None x y).
+Proof. exact (conj (accept1_no_tolerance_band PDF lo hi x) (accept1_closed_domain PDF lo hi x)). Qed.
 Print Assumptions C18_no_tolerance_band.
 
-Theorem C18_closed_domain_real PDF lo hi x y : lo <= y <= hi ->
-  accept1 ROps PDF (Some (lo, hi)) x y = accept1 ROps PDF None x y.
-Proof. exact (accept1_closed_domain PDF lo hi x y). Qed.
-Print Assumptions C18_closed_domain_real.
+(* a wall example: third conjunct of C18_examples *)
 
-Theorem C18_wall_example :
-  accept1 ROps (fun x => 2 * x) (Some (0, 1)) (1/2) 1 = 1 /\
-  accept1 ROps (fun x => 2 * x) (Some (0, 1)) (1/2) (1 + / 2 ^ 60) = 0.
-Proof. exact wall_example. Qed.
-Print Assumptions C18_wall_example.
+(** ** "exactly the requested number of samples for every burn-in and thinning setting" -- and WHICH ones.  Burn-in and thinning are pure
+    bookkeeping: the call (sample, thinning, burn_in) runs the SAME chain as the call (i_max, 1, 0), i_max = (burn_in + thinning * sample) mod 2^32
+    -- same states, same generator state left behind, same failure ([rmap] maps Exit to Exit, Fuel to Fuel) -- and returns of it exactly the states
+    of the loop indices i with i >= burn_in and i mod thinning = 0 ([select]).  No hypothesis: every (sample, thinning, burn_in), thinning = 0 and
+    32-bit wrap-around included, every density, domain, generator state, every number type (verbatim for doubles). *)
+Theorem C18_metropolis_thinning_is_selection {T : Type} (Ops : NumOps T) :
+  (forall PDF sigma sample thin burn domain us,
+     sample_metropolis Ops PDF sigma sample thin burn domain us =
+     rmap (on_fst (select burn thin 0)) (sample_metropolis Ops PDF sigma (metro_imax burn thin sample) 1 0 domain us)) /\
+  (forall PDF s1 s2 sample thin burn domain us,
+     sample_metropolis_2d Ops PDF s1 s2 sample thin burn domain us =
+     rmap (on_fst (select burn thin 0)) (sample_metropolis_2d Ops PDF s1 s2 (metro_imax burn thin sample) 1 0 domain us)).
+Proof. exact (conj (metropolis_thinning_is_selection Ops) (metropolis_2d_thinning_is_selection Ops)). Qed.
+Print Assumptions C18_metropolis_thinning_is_selection.
+
+(** readable form inside the quantifier (thinning >= 1, no overflow): sample j is the state of the un-thinned chain at loop index
+    thinning * (ceil(burn_in / thinning) + j) -- the loop index is counted from 0, NOT from burn_in: when burn_in is not a multiple of thinning
+    the first sample is taken up to thinning - 1 steps after the burn-in ends *)
+Theorem C18_metropolis_which_states_are_returned {T : Type} (Ops : NumOps T) sample thin burn :
+  (1 <= thin)%Z -> (0 <= burn)%Z -> (0 <= sample)%Z -> (burn + thin * sample < 4294967296)%Z ->
+  (forall PDF sigma domain us l r,
+     sample_metropolis Ops PDF sigma sample thin burn domain us = Ok (l, r) ->
+     exists full, sample_metropolis Ops PDF sigma (burn + thin * sample) 1 0 domain us = Ok (full, r) /\
+       Z.of_nat (length full) = (burn + thin * sample)%Z /\
+       forall j, (j < length l)%nat ->
+         nth_error l j = nth_error full (Z.to_nat (thin * ((burn + thin - 1) / thin + Z.of_nat j)))) /\
+  (forall PDF s1 s2 domain us l r,
+     sample_metropolis_2d Ops PDF s1 s2 sample thin burn domain us = Ok (l, r) ->
+     exists full, sample_metropolis_2d Ops PDF s1 s2 (burn + thin * sample) 1 0 domain us = Ok (full, r) /\
+       Z.of_nat (length full) = (burn + thin * sample)%Z /\
+       forall j, (j < length l)%nat ->
+         nth_error l j = nth_error full (Z.to_nat (thin * ((burn + thin - 1) / thin + Z.of_nat j)))).
+Proof.
+  exact (fun Ht Hb Hs Ho => conj
+    (fun PDF sigma domain us l r => metropolis_sample_j Ops PDF sigma sample thin burn domain us l r Ht Hb Hs Ho)
+    (fun PDF s1 s2 domain us l r => metropolis_2d_sample_j Ops PDF s1 s2 sample thin burn domain us l r Ht Hb Hs Ho)).
+Qed.
+Print Assumptions C18_metropolis_which_states_are_returned.
+
+(** the closed form of the selection, from any loop index i on, for lists of any length *)
+Theorem C18_select_closed_form {X : Type} burn thin (l : list X) i j : (1 <= thin)%Z -> (0 <= i)%Z ->
+  nth_error (select burn thin i l) j =
+  nth_error l (Z.to_nat (thin * ((Z.max i burn + thin - 1) / thin + Z.of_nat j) - i)).
+Proof. exact (fun Ht Hi => select_nth burn thin l Ht i j Hi). Qed.
+Print Assumptions C18_select_closed_form.
+
+(* non-vacuity (burn-in 3, thinning 2, 2 samples: a chain of 7 states, the loop indices 4 and 6 are returned): fourth conjunct of C18_examples *)
+
+(** ** the proposal of Sample_Metropolis(_2D) is a random walk: Sample_Gauss(x, sigma) = x + sqrt(2) sigma Inv_Erf(2 xi - 1), the displacement
+    is a function of the deviate and of sigma alone (every number type); over the reals: the same deviate proposes the same displacement from
+    every current point.  (The SYMMETRY of the displacement law, needed with detailed balance of the acceptance for the stationarity of the
+    target, is NOT a theorem: Inv_Erf is a root-finder, see LEVEL_TEXT.) *)
+Theorem C18_proposal_is_random_walk {T : Type} (Ops : NumOps T) u x sigma c :
+  gauss_of Ops u x sigma = Ok c <->
+  exists e, inv_erf Ops (nsub Ops (nmul Ops (nofZ Ops 2) (unif Ops u (n0 Ops) (n1 Ops))) (n1 Ops)) = Ok e /\
+            c = nadd Ops x (nmul Ops (nmul Ops (nsqrt Ops (nofZ Ops 2)) sigma) e).
+Proof. exact (proposal_is_random_walk Ops u x sigma c). Qed.
+Print Assumptions C18_proposal_is_random_walk.
+
+(** ** the law of Sample_Uniform(a,b), a < b, as a statement about events: {output <= t} IS {u <= (t - a)/(b - a)}, so a canonical uniform u gives
+    the distribution function (t - a)/(b - a); the map u -> output is strictly increasing.  Together with the random-walk property over R. *)
+Theorem C18_sample_uniform_law_partial a b : a < b ->
+  (forall u t, unif ROps u a b <= t <-> u <= (t - a) / (b - a)) /\
+  (forall u v, u < v -> unif ROps u a b < unif ROps v a b) /\
+  (forall u sigma x x' c, gauss_of ROps u x sigma = Ok c -> gauss_of ROps u x' sigma = Ok (c - x + x')).
+Proof.
+  exact (fun H => conj (fun u t => sample_uniform_law a b u t H)
+               (conj (fun u v => sample_uniform_increasing a b u v H) proposal_increment_independent)).
+Qed.
+Print Assumptions C18_sample_uniform_law_partial.
+
+(** ** Rejection_Sampling(_2D) terminates for every density, box and envelope (every number type): a generator that can deliver 2 * 9999 (3 * 9999)
+    uniforms is never exhausted ([Fuel] = the call is still drawing) -- the call returns a point or terminates the process (the inefficiency abort at the
+    10000th trial, or a guard).  With C18_consumption_rejection(_2d): at most 9999 trials in every call that returns.
+    (Streams that long exist: long_stream_ex in C18_Proofs_Sel.v.) *)
+Theorem C18_rejection_terminates {T : Type} (Ops : NumOps T) :
+  (forall PDF xMin xMax yMax us, (19998 <= Z.of_nat (length us))%Z ->
+     rejection_sampling Ops PDF xMin xMax yMax us <> Fuel) /\
+  (forall PDF xMin xMax yMin yMax zMax us, (29997 <= Z.of_nat (length us))%Z ->
+     rejection_sampling_2d Ops PDF xMin xMax yMin yMax zMax us <> Fuel).
+Proof. exact (conj (rejection_sampling_terminates Ops) (rejection_sampling_2d_terminates Ops)). Qed.
+Print Assumptions C18_rejection_terminates.
+
+(** ** non-vacuity examples (one theorem, one Print Assumptions): (1) three different samplers interleaved on one stream of four uniforms;
+    (2) the hypotheses of C18_metropolis_stays_in_support are satisfiable: the triangular density 2x on [0,1] (zero outside), domain [-1,2], start
+    deviate 1/2; (3) a candidate ON the wall is judged by the density, one 2^-60 beyond it has acceptance probability 0; (4) burn-in 3, thinning 2,
+    2 samples: of a chain of 7 states the loop indices 4 and 6 are returned, and the arithmetic hypotheses of C18_metropolis_which_states_are_returned
+    hold for them; (5) the event identity of C18_sample_uniform_law_partial at a = -1, b = 3, u = 1/4, t = 0 *)
+Theorem C18_examples :
+  run_calls ROps [CUniform (-1) 3; CRej (fun x => 2 * x) 0 1 2; CMetro (fun x => x) 1 0 1 0 [0; 1]] [/2; /2; /4; /2]
+    = Ok ([AReal 1; AReal (/2); AReals []], []) /\
+  (let PDF := fun x : R => if Rle_dec 0 x then (if Rle_dec x 1 then 2 * x else 0) else 0 in
+   (forall y, 0 <= PDF y) /\ metro_start 1 [-1; 2] (/2) (/2) /\ 0 < PDF (/2)) /\
+  (accept1 ROps (fun x => 2 * x) (Some (0, 1)) (1/2) 1 = 1 /\
+   accept1 ROps (fun x => 2 * x) (Some (0, 1)) (1/2) (1 + / 2 ^ 60) = 0) /\
+  (select 3 2 0 [10; 11; 12; 13; 14; 15; 16]%Z = [14; 16]%Z /\
+   Z.to_nat (2 * ((3 + 2 - 1) / 2 + Z.of_nat 0)) = 4%nat /\ Z.to_nat (2 * ((3 + 2 - 1) / 2 + Z.of_nat 1)) = 6%nat) /\
+  (unif ROps (/4) (-1) 3 <= 0 /\ / 4 <= (0 - -1) / (3 - -1)).
+Proof. exact (conj history_ex (conj stays_in_support_ex (conj wall_example (conj select_ex sample_uniform_law_ex)))). Qed.
+Print Assumptions C18_examples.
